@@ -244,6 +244,42 @@ def _random_fields(seed, count):
     return count, bad
 
 
+def check_refined_filter(seed, count):
+    """the minimal radius also holds for what refinement returns: with a low threshold a cluster is larger than the droplet
+    the fit finds in it, so a minimal radius between the two radii must leave nothing"""
+    from pde import CartesianGrid, ScalarField
+
+    from droplets import DiffuseDroplet
+    from droplets.image_analysis import locate_droplets
+
+    rng = np.random.default_rng(seed)
+    bad = []
+    for k in range(count):
+        dx = [1.0, 0.5, 2.0][k % 3]
+        grid = CartesianGrid([[0, 32 * dx], [0, 28 * dx]], [32, 28], periodic=[bool(k % 2), False])
+        R, w = rng.uniform(3.6, 4.6) * dx, rng.uniform(1.2, 2.0) * dx
+        pos = np.array([rng.uniform(13, 19), rng.uniform(12, 16)]) * dx
+        field = DiffuseDroplet(pos, R, w).get_phase_field(grid)
+        thr = [0.125, 0.0625, 0.25][k % 3]
+        fails = []
+        with warnings.catch_warnings():
+            warnings.simplefilter("ignore")
+            plain = locate_droplets(field, threshold=thr)
+            fitted = locate_droplets(field, threshold=thr, refine=True)
+            if len(plain) != 1 or len(fitted) != 1 or not (plain[0].radius > fitted[0].radius + 0.2 * dx):
+                raise core.MachineryError("scenario: the cluster is not larger than the fitted droplet")
+            rc, rf = float(plain[0].radius), float(fitted[0].radius)
+            for rmin, expect in ((rf - 0.3 * dx, 1), ((rc + rf) / 2, 0), (rc + 0.3 * dx, 0)):
+                got = locate_droplets(field, threshold=thr, refine=True, minimal_radius=rmin)
+                if any(not (d.radius > rmin) for d in got):
+                    fails.append(f"refine=True, minimal_radius={rmin!r}: a droplet of radius {[float(d.radius) for d in got]} is returned (cluster radius {rc!r})")
+                elif len(got) != expect:
+                    fails.append(f"refine=True, minimal_radius={rmin!r}: {len(got)} droplets, expected {expect} (cluster radius {rc!r}, fitted radius {rf!r})")
+        if fails:
+            bad.append({"refined_filter": {"seed": seed, "k": k}, "fails": fails})
+    return count, bad
+
+
 def run(out: core.Outcome) -> None:
     import multiprocessing as mp
 
@@ -286,6 +322,14 @@ def run(out: core.Outcome) -> None:
         out.traces += cnt
         for b in bad:
             out.violation(b)
+    nref = 2 if out.tier == "quick" else 12
+    with mp.get_context("fork").Pool(core.NCPU) as pool:
+        res = pool.starmap(check_refined_filter, [(out.seed * 100 + k, nref) for k in range(core.NCPU)])
+    for cnt, bad in res:
+        out.evaluations += cnt
+        for b in bad:
+            out.violation(b)
+    out.parts["refined_filter"] = {"cases": nref * core.NCPU}
     out.explanation = out.rule
     out.assumptions = [
         "integer images with alphabets for which bin edges are exactly representable (no rounding knife-edge)",
